@@ -8,6 +8,7 @@ CONSTANTS
   NoSync = FALSE
   MaxFaults = 2
   FaultCalls = {"open", "write", "short", "link", "sync", "close", "rename", "unlink"}
+  RetryOn = FALSE
   CrashOn = FALSE
   BugPrecedence = FALSE
   BugLockLeak = FALSE
